@@ -224,6 +224,40 @@ func voteKnown(n *Node, p *Packet) bool {
 	return ba != nil && int(v.ValidatorIndex) < ba.Size() && ba.GetIndex(int(v.ValidatorIndex))
 }
 
+// equivocateAtCommitWaiters: a faulty proposer of the round being committed sends a SECOND proposal for that round -
+// another block, or the committed block in another encoding - with its parts to every correct node that waits in the
+// commit step for the block. The node must keep waiting for (and accept) the parts of the block that was committed.
+func (w *world) equivocateAtCommitWaiters(h int64) {
+	for _, k := range w.net.Order {
+		n := w.net.Nodes[k]
+		rs := n.RS()
+		if rs.Height != h || rs.Step != cstypes.RoundStepCommit || rs.ProposalBlock != nil || rs.Validators == nil {
+			continue
+		}
+		pk := lib.KeyIndex(rs.Validators.GetProposer().Address)
+		if !w.isFaulty(pk) {
+			continue
+		}
+		only := map[int]bool{k: true}
+		if len(w.blocks[h]) > 0 && rapid.Bool().Draw(w.t, "cw.reencode") {
+			bi := w.blocks[h][rapid.IntRange(0, len(w.blocks[h])-1).Draw(w.t, "cw.block")]
+			if ps2 := reencode(bi.block); ps2 != nil {
+				w.net.InjectProposal(pk, h, rs.Round, -1, bi.block, ps2, only, true)
+				w.note(h, blockInfo{types.BlockID{Hash: bi.block.Hash(), PartSetHeader: ps2.Header()}, bi.block, ps2})
+				lib.Class(w.opt.Test, "second-proposal-to-commit-waiter:reencoded")
+			}
+			continue
+		}
+		b, ps := w.net.AltBlock(n, pk, []types.Tx{types.Tx(fmt.Sprintf("cw-%d-%d-%d", h, rs.Round, k))}, nil)
+		if b == nil {
+			continue
+		}
+		w.note(h, blockInfo{types.BlockID{Hash: b.Hash(), PartSetHeader: ps.Header()}, b, ps})
+		w.net.InjectProposal(pk, h, rs.Round, -1, b, ps, only, true)
+		lib.Class(w.opt.Test, "second-proposal-to-commit-waiter:new-block")
+	}
+}
+
 // RunTermination plays one C03 case.
 func RunTermination(t *rapid.T, test string) {
 	s := genSetup(t)
@@ -240,7 +274,7 @@ func RunTermination(t *rapid.T, test string) {
 	w := &world{victim: -1, decider: -1, opt: Options{Test: test, Prop: "C03"}, t: t, s: s, net: net, blocks: map[int64][]blockInfo{}}
 
 	// ---------------- adversarial prefix
-	prefix := rapid.SampledFrom([]string{"structured", "structured", "free", "both", "calm-then-structured", "gadget-locks", "gadget-locks", "gadget-commit-noblock", "gadget-laggard"}).Draw(t, "prefix")
+	prefix := rapid.SampledFrom([]string{"structured", "structured", "free", "both", "calm-then-structured", "gadget-locks", "gadget-locks", "gadget-commit-noblock", "gadget-commit-noblock", "gadget-laggard"}).Draw(t, "prefix")
 	if f := os.Getenv("VERIF_PREFIX"); f != "" {
 		prefix = f // debugging aid: force one prefix kind
 	}
@@ -260,6 +294,21 @@ func RunTermination(t *rapid.T, test string) {
 	case "gadget-locks", "gadget-commit-noblock":
 		// scripted dangerous prefixes; the rounds before r0 and all details inside the phases stay random
 		r0 := rapid.IntRange(0, 2).Draw(t, "gadgetRound")
+		if prefix == "gadget-commit-noblock" && len(s.faulty) > 0 && rapid.IntRange(0, 3).Draw(t, "gadgetRoundOfFaultyProposer") != 0 {
+			// prefer a round whose proposer is faulty (it can then equivocate towards the node waiting for the block)
+			if vals := net.Nodes[net.Order[0]].RS().Validators; vals != nil {
+				for r := 0; r <= 2; r++ {
+					vr := vals
+					if r > 0 {
+						vr = vals.CopyIncrementProposerPriority(int32(r))
+					}
+					if w.isFaulty(lib.KeyIndex(vr.GetProposer().Address)) {
+						r0 = r
+						break
+					}
+				}
+			}
+		}
 		w.forced = map[string]string{"bprop.strat": "new"}
 		f := func(r int, phase, kind string) { w.forced[fmt.Sprintf("r%d.%s", r, phase)] = kind }
 		if prefix == "gadget-locks" {
@@ -346,6 +395,9 @@ func RunTermination(t *rapid.T, test string) {
 		if rs.Step == cstypes.RoundStepCommit && rs.ProposalBlock == nil {
 			commitWaitNoBlock++
 		}
+	}
+	if commitWaitNoBlock > 0 && len(s.faulty) > 0 && rapid.IntRange(0, 3).Draw(t, "equivocateAtCommitWaiters") != 0 {
+		w.equivocateAtCommitWaiters(hStar)
 	}
 	var total, minP int64 = 0, 1 << 62
 	for _, k := range s.correct {
